@@ -446,6 +446,78 @@ def r9_write_back_fixes_length_for_every_form(ctx, rule="C04.R9"):
     ctx.require(rule, 4)
 
 
+def _all_origins(body, op, depth=0):
+    """origins of an operand, one per definition when the local is assigned on several paths (match arms)"""
+    pv = mir.Prov(body)
+    o = pv.of_operand(op)
+    so = mir.strip_all(o)
+    if so[0] != "local" or depth > 3:
+        return [o]
+    out = []
+    for b, i, st in body.defs().get(so[1], []):
+        if body.is_cleanup(b):
+            continue
+        if i == "T":
+            out.append(pv._of_call(st, b, 0))
+        elif st["r"].get("k") == "use":
+            out.extend(_all_origins(body, st["r"]["o"], depth + 1))
+        else:
+            out.append(pv._of_rvalue(st["r"], 0))
+    return out or [o]
+
+
+def r11_property_type_is_the_declared_element_type(ctx, rule="C04.R11"):
+    """`a fixed-length string stays exactly its declared length however it was assigned`: the generator
+    decides from the static type of the target whether to emit FixLength (C04.R8 / R9), and for a record
+    field that type is attached by the checker when it builds the Property node.  It must be the type the
+    TYPE declares for the element - `expression_type()` of the ElementType, or the type copied from the
+    node being rewritten - never a type made from the suffix the programmer wrote (`c.Suit$` on a
+    STRING * 4 field would be a plain STRING: no FixLength, the field holds 17 characters)."""
+    prog = ctx.prog
+    n = 0
+    for f in sorted(prog.fns.values(), key=lambda f: f.id):
+        if f.crate != "rusty_linter" or f.body is None:
+            continue
+        body = f.body
+        for b, blk in enumerate(body.blocks):
+            if body.is_cleanup(b):
+                continue
+            for st in blk["s"]:
+                r = st.get("r", {})
+                if not (st["k"] == "assign" and r.get("k") == "agg" and r.get("a") == "adt"
+                        and r["adt"].endswith("::Expression") and r["variant"] == "Property" and len(r["ops"]) == 3):
+                    continue
+                n += 1
+                bad = []
+                for o in _all_origins(body, r["ops"][2]):
+                    so = mir.strip_all(o)
+                    from_element = so[0] == "call" and so[1].split("::")[-1] == "expression_type" and so[2] and any(
+                        "ElementType" in body.locals[l]["ty"] for l in _locals_of(body, so[2][0]))
+                    copied = so[0] == "field" and mir.origin_mentions(so, lambda x: x[0] == "param")
+                    if not (from_element or copied):
+                        bad.append(mir.short_origin(so))
+                name = f.path.split("::", 1)[1]
+                k = sum(1 for x in ctx.obs if x.key.startswith("%s:%s" % (rule, name)))
+                ctx.decide(not bad, rule, "%s:%s%s" % (rule, name, "#%d" % k if k else ""), "%s:%s" % (f.file, st.get("ln")),
+                           "the type of the Property node is the declared type of the element",
+                           "%s builds a Property node whose type is %s, not the type the TYPE declares for the element: the "
+                           "generator picks FixLength / Cast from this type, so a STRING * n field referenced as `x.f$` is "
+                           "stored like a plain STRING and holds a value of any length" % (name, ", ".join(bad)))
+    ctx.analysed_units(rule, property_nodes_built=n)
+    ctx.require(rule, 2)
+
+
+def _locals_of(body, o):
+    """locals whose value the origin is (through refs), for a look at their declared type"""
+    out = []
+    so = mir.strip_all(o)
+    if so[0] == "param":
+        out.append(so[1] + 1)
+    elif so[0] == "local":
+        out.append(so[1])
+    return out
+
+
 def run(ctx):
     common.install(ctx)
     c06.r2_store_routes(ctx, "C04.R1", strings_only=True)
@@ -461,3 +533,4 @@ def run(ctx):
     from . import c12
     from .. import optables as ot
     c12.r4_by_ref_exact(ctx, ot.OpTables(ctx.prog), "C04.R10")
+    r11_property_type_is_the_declared_element_type(ctx)
